@@ -112,6 +112,14 @@ def enc_nlri(n, withdraw=False):
         else: d = n[2] + n[3] + be32(n[4]) + [n[5]] + n[6] + n[7] + be24(n[8])
         return [k, len(d)] + d
     if t == 'srp': return [8 * (8 + len(n[3]))] + be32(n[1]) + be32(n[2]) + n[3]
+    if t == 'mup':
+        # draft-ietf-bess-mup-safi 3.1: architecture type (1 = 3GPP-5G), route type (2), length (1), route
+        k = n[1]
+        if k == 1: d = n[2] + [n[3]] + n[4][:(n[3] + 7) // 8]
+        elif k == 2: d = n[2] + n[3]
+        elif k == 3: d = n[2] + [n[3]] + n[4][:(n[3] + 7) // 8] + be32(n[5]) + [n[6]] + [8 * len(n[7])] + n[7] + ([0] if n[8] is None else [8 * len(n[8])] + n[8])
+        else: d = n[2] + [n[3]] + n[4] + be32(n[5])[:(n[3] - 8 * len(n[4]) + 7) // 8]
+        return [1, 0, k, len(d)] + d
     return list(n[2])
 
 def nlri_ok(n):
@@ -123,6 +131,16 @@ def nlri_ok(n):
     if t == 'rtc': return n[1] in (0, 1, 2) and n[2] < 2 ** 32 and (n[1] != 2 or len(n[3]) == 8)
     if t == 'evpn': return evpn_ok(n)
     if t == 'srp': return n[1] < 2 ** 32 and n[2] < 2 ** 32 and len(n[3]) in (4, 16)
+    if t == 'mup':
+        k = n[1]
+        if not rd_ok(n[2]): return False
+        w = len(n[4]) if k != 2 else len(n[3])
+        if w not in (4, 16): return False
+        if k == 1: return n[3] <= 8 * w
+        if k == 2: return True
+        if k == 3: return n[3] <= 8 * w and n[5] < 2 ** 32 and n[6] < 256 and len(n[7]) == w and (n[8] is None or len(n[8]) == w)
+        tb = (n[3] - 8 * w + 7) // 8
+        return 8 * w <= n[3] <= 8 * w + 32 and n[5] < 2 ** 32 and n[5] % (256 ** (4 - tb)) == 0
     if t == 'v4': return n[1] <= 32
     if t == 'v6': return n[1] <= 128
     if t in ('vpn4', 'vpn6'):
@@ -136,7 +154,7 @@ def nlri_size(n):
     if t in ('v4', 'v6'): return 1 + (n[1] + 7) // 8
     if t in ('vpn4', 'vpn6'): return 1 + 3 * len(n[1]) + 8 + (n[3] + 7) // 8
     if t in ('lab4', 'lab6'): return 1 + 3 * len(n[1]) + (n[2] + 7) // 8
-    if t in ('fs', 'rtc', 'evpn', 'srp'): return len(enc_nlri(n))
+    if t in ('fs', 'rtc', 'evpn', 'srp', 'mup'): return len(enc_nlri(n))
     return len(n[2])
 
 def nlri_key(n, withdraw=False):
@@ -155,11 +173,18 @@ def nlri_key(n, withdraw=False):
     if t == 'rtc': return ('rtc', n[1], n[2] if n[1] else 0, tuple(n[3]) if n[1] == 2 else ())
     if t == 'evpn': return ('evpn',) + tuple(tuple(x) if isinstance(x, list) else x for x in n[1:])
     if t == 'srp': return ('srp', n[1], n[2], tuple(n[3]))
+    if t == 'mup':
+        k = n[1]
+        # a prefix is identified by its length and significant octets
+        if k in (1, 3):
+            nb = (n[3] + 7) // 8
+            return ('mup', k, tuple(n[2]), n[3], tuple(n[4][:nb])) + tuple(tuple(x) if isinstance(x, list) else x for x in n[5:])
+        return ('mup',) + tuple(tuple(x) if isinstance(x, list) else x for x in n[1:])
     return ('raw', tuple(n[2]))
 
 def as_input_kind(n, raw_input):
     """a case that gives its NLRI as wire octets is compared on the RFC encoding of what the peer decoded"""
-    if raw_input and n[0] in ('fs', 'rtc', 'evpn', 'srp'):
+    if raw_input and n[0] in ('fs', 'rtc', 'evpn', 'srp', 'mup'):
         return ['raw', 0, enc_nlri(n)]
     return n
 
@@ -179,6 +204,9 @@ def val_to_nlri(v):
         if v[1] == 2: return ['evpn', 2, v[2], v[3], v[4], v[5], v[6], v[7], v[8][0] if v[8] else None]
         return ['evpn'] + list(v[1:])
     if t == 13: return ['srp', v[1], v[2], v[3]]
+    if t == 14:
+        if v[1] == 3: return ['mup', 3, v[2], v[3], v[4], v[5], v[6], v[7], v[8][0] if v[8] else None]
+        return ['mup'] + list(v[1:])
     return ['raw', v[1], v[2]]
 
 def aspath_segments(b):
